@@ -109,7 +109,7 @@ def expand(p, alphabet):
                                    ('shlib', 'shared_library', 'lib', '.so', LIB)):
         if kind not in alphabet:
             continue
-        libs = [None] + (p.of(LIB) if kind != 'slib' else [])
+        libs = [None] + p.of(LIB)
         deps = [None] + p.of(FILE)[-1:]
         for (ik, iv), lib, dep in itertools.product(code_inputs(p), libs, deps):
             q = new(kind + ('+' + ik) + ('+lib' if lib else '') + ('+xdep' if dep else ''))
@@ -125,6 +125,10 @@ def expand(p, alphabet):
             name = '%s%d' % (kind[0], i)
             if dep:
                 q.declared_deps.append((pre + name + ext, dep.path))
+            if lib and kind == 'slib':
+                # an archive does not read the libraries it was declared with, but it consumes them
+                # in the sense of the dependency graph (they are forwarded to whoever links it)
+                q.declared_deps.append((pre + name + ext, lib.path))
             q.lines.append("%s = %s(%r, %s)" % (name, fn, name, args))
             q.values.append(Value(name, vt, pre + name + ext, i))
             out.append(q)
